@@ -256,6 +256,8 @@ def make_case(rng):
     ids = idgen(style)
     nchr = rng.randint(1, 3)
     chroms = ["chr%d" % (c + 1) for c in range(nchr)]
+    if rng.random() < 0.12:
+        chroms[rng.randrange(nchr)] = "complete"      # a valid name that collides with the name of the tool's own final files (D22)
     broken = {c: (rng.choice(["tips", "cycle3", "haptail", "ring", "pair", "rearranged"]) if rng.random() < 0.3 else None) for c in chroms}
     allsegs, alllinks = [], []
     scaffs = {}
